@@ -149,7 +149,7 @@ func mkFrame(g *Rng, n int) []byte {
 }
 
 func runC04(res *Result, d *Driver, g *Rng, tier string) {
-	res.Rule = "streams of 1..6 frames (lengths 4..64 KiB, bodies containing prefix-like octets) plus an incomplete tail, cut into arrival chunks: every single cut position and (for streams <= 24 octets) every pair of cuts exhaustively, random multi-cut otherwise, one octet at a time; blocking extractor: every truncation point, read error at every offset, reads of 1..n octets; malformed prefixes 0..3 for both extractors and both codecs; non-trivial = distinct (stream, chunking)"
+	res.Rule = "streams of 1..6 frames (lengths 4..64 KiB, bodies containing prefix-like octets) plus an incomplete tail, cut into arrival chunks: every single cut position and (for streams <= 24 octets) every pair of cuts exhaustively, random multi-cut otherwise, one octet at a time; blocking extractor: every truncation point, read error at every offset, reads of 1..n octets; malformed prefixes 0..3 and declared lengths up to 2^32-1 with only a few octets arrived, for both extractors and both codecs; non-trivial = distinct (stream, chunking)"
 	thorough := tier == "thorough"
 	var ops, goOut []string
 	check := func(cname string, stream []byte, frames [][]byte, tailLen int, cuts []int, viaModel bool) {
@@ -293,6 +293,33 @@ func runC04(res *Result, d *Driver, g *Rng, tier string) {
 				ops, goOut = append(ops, bop), append(goOut, out)
 				if f != nil || !strings.HasPrefix(out, "err") || (consumed != 0 && consumed != 4) {
 					res.Violate("C04.short-prefix-not-refused:"+cname, fmt.Sprintf("blocking extractor, prefix %d: %q, %d octets consumed", p, out, consumed), []string{"codec " + cname, bop})
+				}
+			}
+		}
+	}
+	// declared lengths far beyond what has arrived, up to the 32-bit extremes: nothing is delivered, nothing consumed
+	// (non-blocking), and the blocking extractor fails cleanly at the end of the stream
+	for _, cname := range []string{"cmpp", "smpp"} {
+		for _, decl := range []uint32{65536, 70000, 1 << 24, 0x7FFFFFFF, 0x80000000, 0x80000004, 0xFFFFFFFF} {
+			for _, avail := range []int{4, 5, 12, 16, 40} {
+				buf := make([]byte, avail)
+				binary.BigEndian.PutUint32(buf, decl)
+				for i := 4; i < len(buf); i++ {
+					buf[i] = byte(0x30 + i)
+				}
+				op := "frame run " + hx(buf)
+				res.Eval(cname+"/"+op, true)
+				del, buffered, closed, note := goRun(codecs[cname], [][]byte{buf})
+				ops, goOut = append(ops, op), append(goOut, renderRun(del, buffered, closed))
+				if note != "" || len(del) != 0 || closed || buffered != len(buf) {
+					res.Violate("C04.frames-not-exact:"+cname, fmt.Sprintf("declared length %#x with %d octets arrived: delivered %d frames, closed=%v, %d buffered; %s", decl, avail, len(del), closed, buffered, note), []string{"codec " + cname, op})
+				}
+				bop := "frame blocked " + hx(buf) + " 0"
+				out, f, _ := goBlocked(codecs[cname], buf, false, 3)
+				res.Eval(cname+"/"+bop, true)
+				ops, goOut = append(ops, bop), append(goOut, out)
+				if f != nil || !strings.HasPrefix(out, "err") {
+					res.Violate("C04.blocked-partial-frame:"+cname, fmt.Sprintf("declared length %#x, stream ends after %d octets, DecodeBlocked answered %q", decl, avail, out), []string{"codec " + cname, bop})
 				}
 			}
 		}
